@@ -1,5 +1,6 @@
 CONFIG = dict(
-    coqfiles=["Props/C07.v"],
+    coqfiles=["Props/C07.v", "Props/C07D.v"],
+    sub=["C07D"],
     n_quick=2400, n_thorough=120000, workers_quick=8,
     rule="schedules of 8-42 (thorough -78) operations over {Put, finalizer, PopFront, PushBack(ok/fail), DataSyncer completion ok/fail, state-write completion ok/fail, "
          "clock advance, timer expiry per loop, context cancellation, block-reference queries} on a restored list of 0-3 blocks (epoch ids incl. 2^32-2, one block unattachable in 8%), "
